@@ -658,11 +658,12 @@ def gen_valid(rng, op, B=None):
         k = rng.choice([1, 2, 2, 3, 4])
         toks = []
         base = list(pad8(rand_dims(rng, 24)))
+        mixed = rng.random() < 0.2      # batch sizes that are not all equal-or-1 (1,2,3 / 2,1,3 / ...): must be rejected as a whole
         for _ in range(k):
             d = list(base)
             if ax < 8:
                 d[ax] = rng.choice([1, 1, 2, 3])
-            toks.append(rand_t(rng, d, rng.choice([1, B])).tok())
+            toks.append(rand_t(rng, d, rng.choice([1, 2, 3]) if mixed else rng.choice([1, B])).tok())
         return "concat_fw %s %d" % (" ".join(toks), ax)
     if op == "batch_concat_fw":
         k = rng.choice([1, 2, 3, 4])
